@@ -385,6 +385,15 @@ B0[D]{K*(892)0{K+,pi-},J/psi(1S){mu+,mu-}}                 0 0.3       0.01     
 B+{chi(c1)(1P){J/psi(1S){mu+,mu-},gamma},K+}               2 1         0          2 0         0
 B+{chi(c2)(1P){J/psi(1S){mu+,mu-},gamma},K+}               0 0.2       0.01       0 0.4       0.01
 """,
+    # three and four identical particles in the event type (3! and 4! assignments per amplitude)
+    """EventType D+ pi+ pi0 pi0 pi0
+D+{rho(770)+{pi+,pi0},f(0)(980)0{pi0,pi0}}                 2 1         0          2 0         0
+D+{a(1)(1260)+{rho(770)+{pi+,pi0},pi0},pi0}                0 0.5       0.1        0 0.3       0.1
+""",
+    """EventType D0 pi0 pi0 pi0 pi0
+D0{f(0)(980)0{pi0,pi0},f(0)(980)0{pi0,pi0}}                2 1         0          2 0         0
+D0{f(0)(1370)0{pi0,pi0},f(0)(980)0{pi0,pi0}}               0 0.5       0.1        0 0.3       0.1
+""",
     """EventType B0 Dbar0 pi0 pi- pi+
 D(2)*(2460)-::Spline::Min 4.1
 D(2)*(2460)-::Spline::Max 9.5
